@@ -29,25 +29,26 @@ import (
 
 // Cmd is one protocol command (a message of a virtual transaction).
 type Cmd struct {
-	Op    string      `json:"op"`
-	Txn   int         `json:"txn"`            // index of the issuing virtual transaction (-1: a reader / GC)
-	Start uint64      `json:"start"`          // start ts of the transaction the command is about
-	Keys  []string    `json:"keys,omitempty"` // keys (prewrite: one mutation per key)
-	Ops   []string    `json:"ops,omitempty"`  // prewrite: put del lock insert check per key
-	Vals  []string    `json:"vals,omitempty"`
-	Acts  []int       `json:"acts,omitempty"` // prewrite: pessimistic action per key
-	TS    uint64      `json:"ts,omitempty"`   // commit ts / read ts / for-update ts / safe point / max ts
-	TS2   uint64      `json:"ts2,omitempty"`  // current ts (check-txn-status, cleanup) / caller start ts
-	Cur   uint64      `json:"cur,omitempty"`
-	TTL   uint64      `json:"ttl,omitempty"`
-	Prim  string      `json:"primary,omitempty"`
-	Flag  bool        `json:"flag,omitempty"`  // rollback_if_not_exist / return values / reverse
-	Flag2 bool        `json:"flag2,omitempty"` // resolving pessimistic lock / check existence
-	Limit int         `json:"limit,omitempty"`
-	End   string      `json:"end,omitempty"`
-	Infos [][2]uint64 `json:"infos,omitempty"`
-	MinC  uint64      `json:"minc,omitempty"`
-	NotEx []bool      `json:"notex,omitempty"` // pessimistic lock: assertion not-exist per key
+	Op     string      `json:"op"`
+	Txn    int         `json:"txn"`            // index of the issuing virtual transaction (-1: a reader / GC)
+	Start  uint64      `json:"start"`          // start ts of the transaction the command is about
+	Keys   []string    `json:"keys,omitempty"` // keys (prewrite: one mutation per key)
+	Ops    []string    `json:"ops,omitempty"`  // prewrite: put del lock insert check per key
+	Vals   []string    `json:"vals,omitempty"`
+	Acts   []int       `json:"acts,omitempty"` // prewrite: pessimistic action per key
+	TS     uint64      `json:"ts,omitempty"`   // commit ts / read ts / for-update ts / safe point / max ts
+	TS2    uint64      `json:"ts2,omitempty"`  // current ts (check-txn-status, cleanup) / caller start ts
+	Cur    uint64      `json:"cur,omitempty"`
+	TTL    uint64      `json:"ttl,omitempty"`
+	Prim   string      `json:"primary,omitempty"`
+	Flag   bool        `json:"flag,omitempty"`  // rollback_if_not_exist / return values / reverse
+	Flag2  bool        `json:"flag2,omitempty"` // resolving pessimistic lock / check existence
+	Limit  int         `json:"limit,omitempty"`
+	End    string      `json:"end,omitempty"`
+	Infos  [][2]uint64 `json:"infos,omitempty"`
+	MinC   uint64      `json:"minc,omitempty"`
+	NotEx  []bool      `json:"notex,omitempty"`  // pessimistic lock: assertion not-exist per key
+	Verify bool        `json:"verify,omitempty"` // rstatus: verify_is_primary of the request
 }
 
 // Scenario is the delivered command sequence.
@@ -216,6 +217,15 @@ func (g *gen) next() Cmd {
 			if r.Intn(8) == 0 {
 				pk = keys[r.Intn(len(keys))]
 			}
+			if r.Intn(3) == 0 {
+				// through the RPC handler, as clients send it: verify_is_primary travels in the request, and the key
+				// asked about is often a key of the transaction that is NOT its primary (a stale lock of a pessimistic
+				// transaction that changed its primary, tidb#42937)
+				if r.Intn(2) == 0 {
+					pk = t.mine[r.Intn(len(t.mine))]
+				}
+				return Cmd{Op: "rstatus", Txn: ti, Start: t.start, Prim: pk, TS2: caller, Cur: cur, Flag: r.Intn(2) == 0, Flag2: r.Intn(2) == 0, Verify: r.Intn(5) != 0}
+			}
 			return Cmd{Op: "status", Txn: ti, Start: t.start, Prim: pk, TS2: caller, Cur: cur, Flag: r.Intn(2) == 0, Flag2: r.Intn(3) == 0}
 		case x < 72:
 			return Cmd{Op: "heartbeat", Txn: ti, Start: t.start, Prim: t.prim, TTL: []uint64{5, 2000, 9000}[r.Intn(3)]}
@@ -373,6 +383,8 @@ func enumAlphabet() []Cmd {
 		{Op: "rollback", Txn: 1, Start: s1, Keys: []string{"a"}},
 		{Op: "cleanup", Txn: 1, Start: s1, Keys: []string{"a"}, TS2: 0},
 		{Op: "status", Txn: 1, Start: s1, Prim: "a", TS2: ets(50), Cur: ets(50), Flag: true, Flag2: true},
+		{Op: "rstatus", Txn: 1, Start: s1, Prim: "b", TS2: ets(100000), Cur: ets(100000), Flag: true, Flag2: true, Verify: true},
+		{Op: "rstatus", Txn: 0, Start: s0, Prim: "b", TS2: ets(100000), Cur: ets(100000), Flag: true, Verify: true},
 		{Op: "resolve", Txn: 1, Start: s1, TS: 0},
 		{Op: "resolve", Txn: 1, Start: s1, TS: c1},
 		{Op: "bresolve", Txn: -1, Infos: [][2]uint64{{s0, 0}, {s1, c1}}},
@@ -436,7 +448,7 @@ func enforceConstraints(cmds []Cmd) []Cmd {
 			if c.Start <= gcMax {
 				continue
 			}
-		case "commit", "rollback", "cleanup", "status", "resolve":
+		case "commit", "rollback", "cleanup", "status", "rstatus", "resolve":
 			ended[c.Start] = true
 		case "bresolve", "rbresolve":
 			for _, i := range c.Infos {
@@ -658,6 +670,29 @@ func applyMock(m *mocktikv.MVCCLevelDB, rpc *rpcSide, c Cmd) answer {
 			a.data = fmt.Sprint(uint64(e))
 		}
 		return a
+	case "rstatus":
+		req := &kvrpcpb.CheckTxnStatusRequest{PrimaryKey: []byte(c.Prim), LockTs: c.Start, CallerStartTs: c.TS2, CurrentTs: c.Cur,
+			RollbackIfNotExist: c.Flag, ResolvingPessimisticLock: c.Flag2, VerifyIsPrimary: c.Verify}
+		resp, err := rpc.send(tikvrpc.CmdCheckTxnStatus, req)
+		if err != nil {
+			return answer{class: "other", data: err.Error()}
+		}
+		r := resp.Resp.(*kvrpcpb.CheckTxnStatusResponse)
+		if r.RegionError != nil {
+			return answer{class: "other", data: fmt.Sprint(r.RegionError)}
+		}
+		if ke := r.Error; ke != nil {
+			switch {
+			case ke.PrimaryMismatch != nil:
+				return answer{class: "primary-mismatch", data: fmt.Sprintf("primary=%q", ke.PrimaryMismatch.GetLockInfo().GetPrimaryLock())}
+			case ke.TxnNotFound != nil:
+				return answer{class: "txn-not-found"}
+			case ke.Locked != nil:
+				return answer{class: "locked"}
+			}
+			return answer{class: "other", data: ke.String()}
+		}
+		return answer{ok: true, data: fmt.Sprintf("ttl=%d commit=%d action=%v", r.LockTtl, r.CommitVersion, r.Action)}
 	case "status":
 		ttl, commit, action, err := m.CheckTxnStatus([]byte(c.Prim), c.Start, c.TS2, c.Cur, c.Flag, c.Flag2)
 		if err != nil {
@@ -858,6 +893,16 @@ func applyRef(s *refkv.Store, c Cmd) answer {
 			a.data = fmt.Sprint(e.CommitTS)
 		}
 		return a
+	case "rstatus":
+		st, e := s.CheckTxnStatusV([]byte(c.Prim), c.Start, c.TS2, c.Cur, c.Flag, c.Flag2, false, c.Verify)
+		if e != nil {
+			a := errAnswer(e)
+			if e.Class == "primary-mismatch" {
+				a.data = fmt.Sprintf("primary=%q", e.Lock.Primary)
+			}
+			return a
+		}
+		return answer{ok: true, data: fmt.Sprintf("ttl=%d commit=%d action=%v", st.TTL, st.CommitTS, st.Action)}
 	case "status":
 		st, e := s.CheckTxnStatus([]byte(c.Prim), c.Start, c.TS2, c.Cur, c.Flag, c.Flag2, false)
 		if e != nil {
